@@ -614,11 +614,29 @@ func checkAll(c *caseV, cfg nodeconf.Configuration, ps []*participant, qs []spac
 		}
 		return d
 	}
+	// a peer list handed to a caller is the caller's: it must still say the same after later questions
+	// (added after seeded change C18-6 - NodeIds answering from one shared scratch buffer - was missed)
+	type kept struct {
+		who, space string
+		got, copy  []string
+	}
+	var keptLists []kept
+	defer func() {
+		for _, k := range keptLists {
+			if !eq(k.got, k.copy) {
+				c.Violation("node-ids-changed-after-return:"+tag, "a peer list returned by NodeIds changed after later calls (answers share memory)",
+					map[string]any{"config": describeCfg(cfg), "participant": k.who, "space_id": k.space, "when_returned": k.copy, "now": k.got})
+				return
+			}
+		}
+		c.Count("observed.peer_lists_rechecked_after_later_calls", int64(len(keptLists)))
+	}()
 	for _, q := range qs {
 		ans := make([]answer, len(ps))
 		unions := make([][]string, len(ps))
 		for i, p := range ps {
 			a := answer{ids: p.svc.NodeIds(q.id), resp: p.svc.IsResponsible(q.id), part: p.svc.Partition(q.id)}
+			keptLists = append(keptLists, kept{who: p.id, space: q.id, got: a.ids, copy: append([]string(nil), a.ids...)})
 			ans[i] = a
 			u := append([]string(nil), a.ids...)
 			if a.resp {
